@@ -337,7 +337,9 @@ func (p c19) gen(r *core.Rand) c19Case {
 		p.Normalise()
 		return p
 	}
-	external := func() model.MPoss { return model.MPoss{Name: r.Pick([]string{"debhelper", "gcc", "libc6-dev", "pkg-config", "python3"})} }
+	external := func() model.MPoss {
+		return model.MPoss{Name: r.Pick([]string{"debhelper", "gcc", "libc6-dev", "pkg-config", "python3"})}
+	}
 	for i := range srcs {
 		nrel := r.Range(0, 5)
 		for k := 0; k < nrel; k++ {
